@@ -75,6 +75,10 @@ void BitSequenceRRR::build(const uint *bitseq, size_t len, uint sample_rate) {
 
   // Table O
   O_len = uint_len(1, O_bits_len);
+  // Zero-width offsets at position 0 still touch O[0] (their end, pos - 1,
+  // wraps around): keep one word even when every block is uniform
+  if (O_len == 0)
+    O_len = 1;
   O = new uint[O_len];
   for (uint i = 0; i < O_len; i++)
     O[i] = 0;
